@@ -6,6 +6,8 @@ P = {'id': 'C19',
               'mv_open_elements',
               'mv_truncated_refused',
               'mv_sync_crash_safe',
+              'mv_history_crash_safe',
+              'crash_compose',
               'replace_crash_safe',
               'mv_set_len_safe',
               'ro_roundtrip',
